@@ -1536,6 +1536,20 @@ static int vnadata_save_common(vnadata_t *vdp, FILE *fp, const char *filename,
     }
 
     /*
+     * None of the output calls above check for errors.  A failed write
+     * discards the buffered data, so unless more output happens to be
+     * pending at fclose time, the error would go unnoticed.
+     */
+    if (ferror(fp)) {
+	if (errno == 0) {
+	    errno = EIO;
+	}
+	_vnadata_error(vdip, VNAERR_SYSTEM, "%s: write error: %s",
+		filename, strerror(errno));
+	goto out;
+    }
+
+    /*
      * If vnadata_save, close the output file.
      */
     if (function == vnadata_save_name) {
